@@ -68,7 +68,14 @@ def link_level(ctx, rng, count):
         with contextlib.redirect_stdout(io.StringIO()):
             t_m = np.asarray(arm.staticForcesWithLinkMasses(Wrench(F.copy()), th.copy()), dtype=float).reshape(n)
             t_0 = np.asarray(arm.staticForces(Wrench(F.copy()), th.copy()), dtype=float).reshape(n)
-            frames = [m.gTM() for m in arm.getJointTransforms()]
+        # joint frames at theta, computed by RefEval (never read back from the arm: the state it holds is part of what is judged)
+        frames = [np.eye(4)]
+        E = np.eye(4)
+        for k in range(1, n + 1):
+            E = E @ expm(rf.hat6(S[:, k - 1]) * th[k - 1])
+            Hk = np.eye(4)                      # joint k's home frame: the point handed to the constructor, no rotation
+            Hk[:3, 3] = c["pts"][:, k - 1]
+            frames.append(E @ Hk)
         extra = np.zeros(n)
         for k in range(1, n + 1):                      # link k hangs on joint k: weight at frame_k * cg_k
             p = (frames[k] @ cgs[k])[:3, 3]
